@@ -72,6 +72,16 @@ func pickStart(s *Stream, h *History, atUnitBoundary bool) Pos {
 	return st
 }
 
+// earliestStart is the first position of the history a dump can start from.
+func earliestStart(h *History) Pos {
+	for _, b := range h.Boundaries() {
+		if _, fine := h.Model(b); fine {
+			return b
+		}
+	}
+	return Pos{h.Files[0].Name, 4}
+}
+
 func genServerID(s *Stream) uint32 {
 	return []uint32{1001, 0, 1, 1<<31 - 1, 1 << 31, 1<<32 - 1, uint32(7 + s.N(1<<20))}[s.Weighted(3, 1, 1, 1, 1, 1, 2)]
 }
@@ -276,10 +286,18 @@ func genScenarioC15(t *Tape, thorough bool) *Scenario {
 	o.AliasMapper = true
 	o.CountChange = true
 	o.UnitWeights = [numUnitKinds]int{uTxXID: 6, uTxCommit: 2, uDDL: 1, uAutoRows: 3, uStmtDML: 0,
-		uTxRollback: 0, uUnknownStmt: 0, uIgnorable: 1, uRotate: 1}
+		uTxRollback: 1, uUnknownStmt: 0, uIgnorable: 1, uRotate: 1}
+	o.CarryMaps = true
 	h := genHistoryFor(t, hs, &o)
 	cs := t.S("cfg")
 	sc := &Scenario{Hist: h, Start: pickStart(cs, h, true), ServerID: 1001}
+	if h.Cfg.CarryMaps {
+		// rows events may rely on a table map of an earlier transaction: one attempt, from the
+		// first position of the history (a later start or a resumed attempt would not have seen it)
+		sc.Start = earliestStart(h)
+		sc.Attempts = append(sc.Attempts, cleanAttempt(cs, t.S("policy")))
+		return sc
+	}
 	if cs.Chance(1, 3) {
 		// a mapper fault attempt first, then a clean one
 		p := AttemptPlan{Stop: stopMapperMiscount, CallIndex: 1 + cs.N(3), MiscountDelta: []int{1, -1, 2, -3, 7}[cs.N(5)]}
